@@ -34,7 +34,7 @@ fn gen_tree(rng: &mut rand_chacha::ChaCha8Rng, root: &std::path::Path, thorough:
             let n = match rng.gen_range(0..10) { 0 => 0, 1 if thorough => 300_000, 1 => 70_000, _ => rng.gen_range(1..200) };
             let content = bytes(rng, n);
             std::fs::write(root.join(&f), &content).unwrap();
-            let mode = [0o644u32, 0o600, 0o755, 0o444, 0o640][rng.gen_range(0..5)];
+            let mode = [0o644u32, 0o600, 0o755, 0o444, 0o640, 0o4755, 0o2755, 0o6711, 0o1644, 0o7777, 0o000][rng.gen_range(0..11)];
             std::fs::set_permissions(root.join(&f), std::fs::Permissions::from_mode(mode)).unwrap();
             let mtime = 1_000_000_000 + rng.gen_range(0..700_000_000);
             set_mtime(&root.join(&f), mtime);
@@ -46,9 +46,15 @@ fn gen_tree(rng: &mut rand_chacha::ChaCha8Rng, root: &std::path::Path, thorough:
     for _ in 0..rng.gen_range(0..3) {
         let d = all_dirs.iter().filter(|d| !d.contains("empty")).nth(rng.gen_range(0..all_dirs.iter().filter(|d| !d.contains("empty")).count())).unwrap().clone();
         let name = format!("{d}/link{}", rng.gen_range(0..1000));
-        let target: String = match rng.gen_range(0..3) {
-            0 if !files.is_empty() => { let f = &files[rng.gen_range(0..files.len())]; f.rsplit('/').next().unwrap().to_string() }
-            1 => "d".to_string(),
+        let target: String = match rng.gen_range(0..8) {
+            0 | 1 if !files.is_empty() => { let f = &files[rng.gen_range(0..files.len())]; f.rsplit('/').next().unwrap().to_string() }
+            2 => "d".to_string(),
+            // targets that leave the link's directory and come back, leave the tree, or are absolute: the link is data,
+            // and is reproduced as it is
+            3 if !files.is_empty() => { let f = &files[rng.gen_range(0..files.len())]; format!("../{}", f.rsplit('/').next().unwrap()) }
+            4 => "../../outside/of/the/tree".to_string(),
+            5 => "/nonexistent/absolute/target".to_string(),
+            6 => "./x/../y".to_string(),
             _ => "no/such/target".to_string(),
         };
         if std::os::unix::fs::symlink(&target, root.join(&name)).is_ok() {
@@ -56,7 +62,7 @@ fn gen_tree(rng: &mut rand_chacha::ChaCha8Rng, root: &std::path::Path, thorough:
         }
     }
     for d in &all_dirs {
-        let mode = [0o755u32, 0o700, 0o775][rng.gen_range(0..3)];
+        let mode = [0o755u32, 0o700, 0o775, 0o2775, 0o1777, 0o3770][rng.gen_range(0..6)];
         std::fs::set_permissions(root.join(d), std::fs::Permissions::from_mode(mode)).unwrap();
         nodes.push(TNode { path: d.clone(), kind: 1, content: vec![], mode, mtime: 0 });
     }
@@ -65,7 +71,7 @@ fn gen_tree(rng: &mut rand_chacha::ChaCha8Rng, root: &std::path::Path, thorough:
 
 pub fn cli_tree(ctx: &mut Ctx) {
     let mut rng = rng_for(ctx.seed, "cli-tree");
-    ctx.rule = "generated trees (nested and empty directories, empty/small/70-300 KB files, names with unicode, spaces, a leading dash, a leading dot and 200 bytes, symlinks to files, to directories and dangling) \
+    ctx.rule = "generated trees (nested and empty directories, empty/small/70-300 KB files, names with unicode, spaces, a leading dash, a leading dot and 200 bytes, symlinks to files, to directories, dangling, with `..` components and absolute; file and directory modes including set-user-ID, set-group-ID and sticky bits) \
                 x {--store,--deflate n,--zstd n,--xz n} x {no password, --aes/--camellia x cbc/ctr x --pbkdf2/--argon2 params} x {--solid} x {--split size} x {file, stdio pipe} x subsets of {--keep-dir,--keep-timestamp,--keep-permission} on either side; \
                 real `pna create` + `pna extract` into an empty directory; the extracted tree (paths, kinds, contents, link targets, and permission bits / file mtimes when kept on both sides) is compared with the model's expected tree and with the source tree directly; \
                 non-trivial = tree has a file; distinct by request line".into();
